@@ -256,4 +256,72 @@ theorem linMinMax_mono' (indef : Int) {x y : F64} (h : le x y = true) {mn mx : I
       · simp [le] at h
     | fin b => exact linMinMax_mono indef (by simpa using h) hmn hmx
 
+/-! ### closeness of the ramp to the exact linear function -/
+
+theorem fl64_err_two_sided {w : ℚ} (hw : 0 ≤ w) :
+    w - (pow2 (-53) * w + pow2 (-1075)) ≤ fl64 w ∧ fl64 w ≤ w + (pow2 (-53) * w + pow2 (-1075)) := by
+  have := abs_le.mp (fl64_abs_err w)
+  rw [abs_of_nonneg hw] at this
+  constructor <;> linarith [this.1, this.2]
+
+/-- For realistic temperatures (`|min|, |max| ≤ 2^42` °C) the float64 ramp value is within `2^-42`
+    of the exact `255·(q − 1000·min)/(1000·(max − min))`. -/
+theorem linMid_close {q : ℚ} {mn mx : Int} (hmn : |mn| ≤ 2 ^ 42) (hmx : |mx| ≤ 2 ^ 42)
+    (h1 : (mn : ℚ) * 1000 < q) (h2 : q < (mx : ℚ) * 1000) :
+    |linMid q ((mn : ℚ) * 1000) ((mx : ℚ) * 1000)
+      - 255 * (q - 1000 * mn) / (1000 * ((mx : ℚ) - mn))| ≤ 1 / 2 ^ 42 := by
+  have hmn' := abs_le.mp hmn
+  have hmx' := abs_le.mp hmx
+  have hlt : (mn : ℚ) < mx := by nlinarith
+  have hlti : mn < mx := by exact_mod_cast hlt
+  -- the denominator is exact
+  have hWeq : (mx : ℚ) * 1000 - (mn : ℚ) * 1000 = (((mx - mn) * 1000 : Int) : ℚ) := by
+    push_cast; ring
+  have hD : fl64 ((mx : ℚ) * 1000 - (mn : ℚ) * 1000) = (((mx - mn) * 1000 : Int) : ℚ) := by
+    rw [hWeq]; exact fl64_intCast _ (abs_le.mpr ⟨by omega, by omega⟩)
+  set W : ℚ := (((mx - mn) * 1000 : Int) : ℚ) with hW
+  have hW1 : (1 : ℚ) ≤ W := by
+    rw [hW]; exact_mod_cast (by omega : (1 : Int) ≤ (mx - mn) * 1000)
+  have hWpos : 0 < W := by linarith
+  have hWval : W = 1000 * ((mx : ℚ) - mn) := by rw [hW]; push_cast; ring
+  set u : ℚ := q - (mn : ℚ) * 1000 with hu
+  have hu0 : 0 ≤ u := by rw [hu]; linarith
+  have huW : u ≤ W := by rw [hu, hWval]; linarith
+  set ε : ℚ := pow2 (-53) with hε
+  set η : ℚ := pow2 (-1075) with hη
+  have hε0 : 0 ≤ ε := pow2_nonneg _
+  have hη0 : 0 ≤ η := pow2_nonneg _
+  have hηε : η ≤ ε := pow2_mono (by norm_num)
+  -- the three roundings
+  obtain ⟨n1, n2⟩ := fl64_err_two_sided hu0
+  have hN0 : 0 ≤ fl64 u := fl64_nonneg hu0
+  have hNW : fl64 u ≤ W := by
+    have := fl64_mono huW
+    rwa [hW, fl64_intCast _ (abs_le.mpr ⟨by omega, by omega⟩)] at this
+  have hx1 : 0 ≤ fl64 u / W := div_nonneg hN0 hWpos.le
+  have hx1' : fl64 u / W ≤ 1 := div_le_one_of_le₀ hNW hWpos.le
+  obtain ⟨r1, r2⟩ := fl64_err_two_sided hx1
+  have hr0 : 0 ≤ fl64 (fl64 u / W) := fl64_nonneg hx1
+  have hr1 : fl64 (fl64 u / W) ≤ 1 := fl64_le_of_le_rep rep64_1 hx1'
+  obtain ⟨v1, v2⟩ := fl64_err_two_sided (w := fl64 (fl64 u / W) * 255) (by positivity)
+  -- first error, divided by W
+  have hεu : ε * u ≤ ε * W := mul_le_mul_of_nonneg_left huW hε0
+  have hηW : η ≤ η * W := by nlinarith
+  have a1 : fl64 u / W ≤ u / W + (ε + η) := by
+    rw [div_add' _ _ _ hWpos.ne', div_le_div_iff_of_pos_right hWpos]
+    nlinarith
+  have a2 : u / W - (ε + η) ≤ fl64 u / W := by
+    rw [div_sub' hWpos.ne', div_le_div_iff_of_pos_right hWpos]
+    nlinarith
+  have hεx : ε * (fl64 u / W) ≤ ε := by nlinarith
+  have hεr : ε * (fl64 (fl64 u / W) * 255) ≤ 255 * ε := by nlinarith
+  have hE : 255 * (q - 1000 * mn) / (1000 * ((mx : ℚ) - mn)) = 255 * (u / W) := by
+    rw [hu, hWval]; ring
+  unfold linMid
+  rw [hD, hE]
+  have hnum : (765 + 511) * ε ≤ 1 / 2 ^ 42 := by
+    rw [hε, pow2_def]; norm_num
+  rw [abs_le]
+  constructor <;> nlinarith
+
 end Fan2go
